@@ -175,6 +175,8 @@ type runRec struct {
 	calls   []modelCall
 	tools   []toolInv
 	checker []checkerObs
+	// modifier: the same observation made by the MessageModifier
+	modifier []checkerObs
 }
 
 // Context keys. envKey carries the harness' per-run environment, tokenKey the per-run value
